@@ -190,8 +190,21 @@ pub fn model_map(reference: &[Vec<u8>], dicts: &[SampleDict], k: usize, rc: bool
 }
 
 /// contig names, deliberately not in lexicographic order (outputs must follow the reference's order)
-pub fn contig_names(n: usize) -> Vec<String> {
-    (0..n).map(|i| format!("{}_ctg{i}", ["z", "a", "m", "B", "k"][i % 5])).collect()
+/// Every fourth name looks like a region cut out of a longer sequence (`samtools faidx ref.fa chr:1001-1120` names
+/// its output that way), with coordinates that fit the record's length or do not: a name is a name.
+pub fn contig_names(reference: &[Vec<u8>]) -> Vec<String> {
+    reference
+        .iter()
+        .enumerate()
+        .map(|(i, r)| {
+            let base = format!("{}_ctg{i}", ["z", "a", "m", "B", "k"][i % 5]);
+            match i % 4 {
+                1 if !r.is_empty() => format!("{base}:{}-{}", 1001 + 7 * i, 1000 + 7 * i + r.len()),
+                3 => format!("{base}:{}-{}", 10 + i, 12 + i + r.len()),
+                _ => base,
+            }
+        })
+        .collect()
 }
 
 pub struct MapRun {
@@ -204,7 +217,7 @@ pub struct MapRun {
 
 /// write inputs, build, and run `ska map` with the case's flags in the given format
 pub fn run_map(ctx: &Ctx, dir: &std::path::Path, c: &Case, m: &Mat, vcf: bool) -> Result<MapRun, Outcome> {
-    let names = contig_names(m.reference.len());
+    let names = contig_names(&m.reference);
     // FASTA headers may carry a description after the name; it is not part of the contig name
     let headers: Vec<String> = names.iter().enumerate().map(|(i, n)| if (i + c.k / 2) % 2 == 0 { format!("{n} len={} some description", m.reference[i].len()) } else { n.clone() }).collect();
     // alignment output does not name contigs: there the records of a reference may share the first word of
